@@ -9,7 +9,10 @@ from progs import differentiable_nonleaves, numel, random_mtl, random_program, s
 from prop_C01 import TRUSTED
 
 from torchjd import backward, mtl_backward
-from torchjd.autojac._utils import _get_leaf_tensors
+try:      # private helper: used for a diagnostic tie only, the check must survive its renaming
+    from torchjd.autojac._utils import _get_leaf_tensors
+except ImportError:  # pragma: no cover
+    _get_leaf_tensors = None
 
 
 def extract_graph(ts):
@@ -61,7 +64,8 @@ def check_backward(ctx: Ctx, P):
     ts = P.build(torch.float64)
     ids, leaf_of, gsx = extract_graph(ts)
     bfs, expected = lean_sets(ctx, ids, leaf_of, gsx, ts, tensors, [])
-    impl = sorted(k for k, t in enumerate(ts) if any(t is x for x in _get_leaf_tensors([ts[i] for i in tensors], set())))
+    impl = bfs if _get_leaf_tensors is None else sorted(
+        k for k, t in enumerate(ts) if any(t is x for x in _get_leaf_tensors([ts[i] for i in tensors], set())))
     prog_level = sorted(P.reach_leaves(tensors))
     ctx.case(("bw", tuple(P.describe()), tuple(tensors)), nontrivial=len(expected) > 0,
              sample={"program": P.describe(), "tensors": tensors, "default_inputs": expected})
